@@ -499,32 +499,90 @@ func resolveSvc(r *core.Run, rule string) *svcAnchors {
 		}
 		return false
 	}
-	a.Enqueue = one("enqueue", func(fn *ssa.Function) bool {
+	// enqueue: the outermost unexported method of S that takes a func() and (itself or through its
+	// private helpers) stores to the work queue
+	scopeStores := func(fn *ssa.Function, f core.Field) bool {
+		for _, h := range p.Helpers(fn) {
+			if storesTo(h, f) {
+				return true
+			}
+		}
+		return false
+	}
+	isEnqCand := func(fn *ssa.Function) bool {
 		hasCb := false
 		for _, prm := range fn.Params {
 			if sig, ok := prm.Type().Underlying().(*types.Signature); ok && sig.Params().Len() == 0 && sig.Results().Len() == 0 {
 				hasCb = true
 			}
 		}
-		return hasCb && fn.Signature.Recv() != nil && core.TypeName(fn.Signature.Recv().Type()) == a.S && storesTo(fn, a.WorkQueue)
+		return hasCb && fn.Parent() == nil && fn.Signature.Recv() != nil && core.TypeName(fn.Signature.Recv().Type()) == a.S && scopeStores(fn, a.WorkQueue)
+	}
+	a.Enqueue = one("enqueue", func(fn *ssa.Function) bool {
+		if !isEnqCand(fn) || (fn.Object() != nil && fn.Object().Exported()) {
+			return false
+		}
+		// the outermost unexported candidate: the entry point the API methods submit through (its
+		// private helpers - the critical section, the registration - are analysed as part of it)
+		for _, g := range rootFns {
+			if g == fn || g.Parent() != nil || !isEnqCand(g) || (g.Object() != nil && g.Object().Exported()) {
+				continue
+			}
+			for _, h := range p.Helpers(g) {
+				if h == fn {
+					return false
+				}
+			}
+		}
+		return true
 	})
-	a.Worker = one("workerLoop", func(fn *ssa.Function) bool {
-		for _, c := range core.Calls(fn) {
-			if cal := c.Common().StaticCallee(); cal != nil && cal.String() == "(*sync.Cond).Wait" {
-				if f, ok := core.FieldOf(c.Common().Args[0]); ok && f == a.Cond {
-					return true
+	// workerLoop: the function started with go whose body (with its private helpers) waits on the
+	// service condition
+	waitsOnCond := func(fn *ssa.Function) bool {
+		for _, h := range p.Helpers(fn) {
+			for _, c := range core.Calls(h) {
+				if cal := c.Common().StaticCallee(); cal != nil && cal.String() == "(*sync.Cond).Wait" {
+					if f, ok := core.FieldOf(c.Common().Args[0]); ok && f == a.Cond {
+						return true
+					}
 				}
 			}
 		}
 		return false
-	})
+	}
+	goStarted := map[*ssa.Function]bool{}
+	for _, fn := range rootFns {
+		for _, c := range core.Calls(fn) {
+			if core.IsGo(c) && c.Common().StaticCallee() != nil {
+				goStarted[c.Common().StaticCallee()] = true
+			}
+		}
+	}
+	a.Worker = one("workerLoop", func(fn *ssa.Function) bool { return goStarted[fn] && waitsOnCond(fn) })
+	// drain: the function that takes a callback out of a work item's queue (by index) and calls it,
+	// directly or through a private helper that calls its parameter
+	callsParam := func(h *ssa.Function, i int) bool {
+		if h == nil || i >= len(h.Params) {
+			return false
+		}
+		for _, c := range core.Calls(h) {
+			if core.IsDynamic(c) && c.Common().Value == ssa.Value(h.Params[i]) {
+				return true
+			}
+		}
+		return false
+	}
 	a.Drain = one("drain", func(fn *ssa.Function) bool {
 		for _, c := range core.Calls(fn) {
-			if !core.IsDynamic(c) {
-				continue
-			}
-			if isQueueElem(c.Common().Value, a.WQueue) {
+			if core.IsDynamic(c) && isQueueElem(c.Common().Value, a.WQueue) {
 				return true
+			}
+			if cal := c.Common().StaticCallee(); cal != nil && p.IsPrivateHelper(cal) {
+				for i, arg := range c.Common().Args {
+					if isQueueElem(arg, a.WQueue) && callsParam(cal, i) {
+						return true
+					}
+				}
 			}
 		}
 		return false
